@@ -2,6 +2,7 @@ import AmVerif.Gen.Skel
 import AmVerif.Lemmas.TopoGraph
 import AmVerif.Lemmas.Converge
 import AmVerif.Lemmas.Settle
+import AmVerif.Lemmas.StaticMode
 import AmVerif.Model.History
 import AmVerif.Lemmas.World
 import AmVerif.Gen.Tables
@@ -1053,5 +1054,131 @@ so a concurrent insertion into that shard delays the look-up but never turns it 
 and consume the change). -/
 theorem C05_get_waits_for_the_shard :
     AmVerif.Gen.skel_cache_AssetMap_for_AssetMap_get = [.call .s_get_shard, .acq .s_read 0, .call .s_get, .try_, .rel 0] := rfl
+
+/-! ## The static mode (`enhance_hot_reloading`): the cache follows the source by itself
+
+`Lemmas/StaticMode.lean`. In static mode every batch of events is applied at once by the reloader
+thread (`handle_events` → `update_if_static`), the switch itself applies what was notified before and
+not applied yet, and `hot_reload()` is a no-op. The pass is the same `run_update`: the statements are
+`C05_pass_converges_partial` for the state the entry point hands to `run_update` (`takeEvents`,
+`enhanceState`), with the same three named hypotheses on the steps of THAT pass. -/
+
+/-- The pass `handle_events` runs in static mode is `run_update` from `takeEvents s r evs` (messages
+drained, the events the graph knows taken); with a drained channel that state is `s` and `r` with the
+kept events added to the set of changed entries. -/
+theorem C05_static_events_pass_state (env : Env) (fuel : Nat) (s : St) (r : RSt) (evs : List Dep)
+    (hlive : r.dead = false) (hstatic : r.static_ = true) :
+    handleEvents env fuel s r evs =
+      processMsgs (runUpdate env fuel (takeEvents s r evs).1 (takeEvents s r evs).2).1
+        (runUpdate env fuel (takeEvents s r evs).1 (takeEvents s r evs).2).2 ∧
+    (s.out = [] → takeEvents s r evs = (s, { r with toReload := keepEvents r.graph evs r.toReload })) :=
+  ⟨handleEvents_static env fuel s r evs hlive hstatic, takeEvents_drained s r evs⟩
+
+/-- **A batch of events in static mode converges** (partial: `hmiss`, `hrewire` as in
+`C05_pass_converges_partial`, on the steps of the pass `handle_events` runs).
+
+`s`, `r`: the cache and the reloader's data, reloader alive and in static mode, channel drained,
+everything registered and cached settled under the source `env` before the edits. `env'` differs from
+`env` only on `changed` (`hfile`, `hdir`); every changed entry the graph knows is among the events
+`evs` of this batch or was in the set of changed entries already (`hnotified`). The three named
+hypotheses are on `updateSteps` of the state `handle_events` hands to `run_update`
+(`takeEvents s r evs`, see `C05_static_events_pass_state`).
+
+Conclusion: when `handle_events` returns — no `hot_reload()` call — every registered, cached, dynamic
+asset is settled under the NEW source, the reloader is alive and still in static mode, the channel is
+drained (the pass registered nothing behind the sort's back), nothing is pending, the index is exact. -/
+theorem C05_static_events_converge_partial (env env' : Env) (fuel : Nat) (s : St) (r : RSt) (evs changed : List Dep)
+    {rank : Dep → Nat}
+    (hS : env.Steady) (hS' : env'.Steady) (hL : SameLoaders env env')
+    (hset : Settled env fuel s r.graph) (hG : GraphOK r.graph)
+    (hrank : ∀ a rs b, r.graph.rdepsOf a = some rs → b ∈ rs → rank b < rank a)
+    (hlive : r.dead = false) (hfuel : r.graph.length + 1 ≤ fuel)
+    (hdrained : s.out = []) (hstatic : r.static_ = true)
+    (hfile : ∀ id ext, Dep.file id ext ∉ changed → env'.read 0 id ext = env.read 0 id ext)
+    (hdir : ∀ id, Dep.dir id ∉ changed → env'.readDir 0 id = env.readDir 0 id)
+    (hnotified : ∀ d, d ∈ changed → r.graph.get d ≠ none → d ∈ evs ∨ d ∈ r.toReload)
+    (hmiss : NoMissInPass env' fuel (updateSteps env' fuel (takeEvents s r evs).1 (takeEvents s r evs).2))
+    (hret : ReloadsReturn env' fuel (updateSteps env' fuel (takeEvents s r evs).1 (takeEvents s r evs).2))
+    (hrewire : NoRewireOntoPending env' fuel (updateSteps env' fuel (takeEvents s r evs).1 (takeEvents s r evs).2)) :
+    Settled env' fuel (handleEvents env' fuel s r evs).1 (handleEvents env' fuel s r evs).2.graph ∧
+    (handleEvents env' fuel s r evs).2.dead = false ∧ (handleEvents env' fuel s r evs).1.out = [] ∧
+    (handleEvents env' fuel s r evs).2.toReload = [] ∧ (handleEvents env' fuel s r evs).2.static_ = true ∧
+    GraphOK (handleEvents env' fuel s r evs).2.graph := by
+  have e := takeEvents_drained s r evs hdrained
+  have hg : (takeEvents s r evs).2.graph = r.graph := by rw [e]
+  have ht : (takeEvents s r evs).2.toReload = keepEvents r.graph evs r.toReload := by rw [e]
+  obtain ⟨c1, c2, c3, c4, c5, _⟩ := handleEvents_static_converges hS hS' hL (Pending.of_settled hdrained hset) hG.1
+    (rank := rank) (changed := changed) (evs := evs) (by rw [hg]; exact hrank) hlive hstatic (by rw [hg]; exact hfuel)
+    hfile hdir
+    (by
+      intro d hd hk
+      rw [hg] at hk
+      rw [ht]
+      rcases hnotified d hd hk with h | h
+      · exact mem_keepEvents _ evs _ d h hk
+      · exact mem_keepEvents_of_mem _ evs _ d h)
+    hmiss hret hrewire
+  exact ⟨c1, c2, c3, c4, c5, C05_handleEvents_keeps_graphOK env' fuel s r evs hG⟩
+
+/-- The pass `enhance_hot_reloading` runs from the local mode is `run_update` from `enhanceState s r`
+(messages drained, mode switched); with a drained channel that state is `s` and `r` in static mode. -/
+theorem C05_enhance_pass_state (env : Env) (fuel : Nat) (s : St) (r : RSt)
+    (hlive : r.dead = false) (hlocal : r.static_ = false) :
+    enhance env fuel s r =
+      processMsgs (runUpdate env fuel (enhanceState s r).1 (enhanceState s r).2).1
+        (runUpdate env fuel (enhanceState s r).1 (enhanceState s r).2).2 ∧
+    (s.out = [] → enhanceState s r = (s, { r with static_ := true })) :=
+  ⟨enhance_local env fuel s r hlive hlocal, enhanceState_drained s r⟩
+
+/-- **The switch to static mode applies what was pending** (partial: `hmiss`, `hrewire` on the steps
+of the pass `enhance_hot_reloading` runs).
+
+`s`, `r`: reloader alive, LOCAL mode, channel drained, everything settled under the source `env` before
+the edits; `env'` differs from `env` only on `changed`, and every changed entry the graph knows has been
+notified — it is in `r.toReload`, not applied yet (no `hot_reload()` since). After
+`enhance_hot_reloading` returns everything registered and cached is settled under the NEW source, the
+reloader is alive and in static mode, the channel is drained, nothing is pending, the index is exact. -/
+theorem C05_enhance_converges_partial (env env' : Env) (fuel : Nat) (s : St) (r : RSt) (changed : List Dep)
+    {rank : Dep → Nat}
+    (hS : env.Steady) (hS' : env'.Steady) (hL : SameLoaders env env')
+    (hset : Settled env fuel s r.graph) (hG : GraphOK r.graph)
+    (hrank : ∀ a rs b, r.graph.rdepsOf a = some rs → b ∈ rs → rank b < rank a)
+    (hlive : r.dead = false) (hfuel : r.graph.length + 1 ≤ fuel)
+    (hdrained : s.out = []) (hlocal : r.static_ = false)
+    (hfile : ∀ id ext, Dep.file id ext ∉ changed → env'.read 0 id ext = env.read 0 id ext)
+    (hdir : ∀ id, Dep.dir id ∉ changed → env'.readDir 0 id = env.readDir 0 id)
+    (hnotified : ∀ d, d ∈ changed → r.graph.get d ≠ none → d ∈ r.toReload)
+    (hmiss : NoMissInPass env' fuel (updateSteps env' fuel (enhanceState s r).1 (enhanceState s r).2))
+    (hret : ReloadsReturn env' fuel (updateSteps env' fuel (enhanceState s r).1 (enhanceState s r).2))
+    (hrewire : NoRewireOntoPending env' fuel (updateSteps env' fuel (enhanceState s r).1 (enhanceState s r).2)) :
+    Settled env' fuel (enhance env' fuel s r).1 (enhance env' fuel s r).2.graph ∧
+    (enhance env' fuel s r).2.dead = false ∧ (enhance env' fuel s r).1.out = [] ∧
+    (enhance env' fuel s r).2.toReload = [] ∧ (enhance env' fuel s r).2.static_ = true ∧
+    GraphOK (enhance env' fuel s r).2.graph := by
+  have e := enhanceState_drained s r hdrained
+  have hg : (enhanceState s r).2.graph = r.graph := by rw [e]
+  have ht : (enhanceState s r).2.toReload = r.toReload := by rw [e]
+  obtain ⟨c1, c2, c3, c4, c5, _⟩ := enhance_converges hS hS' hL (Pending.of_settled hdrained hset) hG.1
+    (rank := rank) (changed := changed) (by rw [hg]; exact hrank) hlive hlocal (by rw [hg]; exact hfuel)
+    hfile hdir (by intro d hd hk; rw [hg] at hk; rw [ht]; exact hnotified d hd hk)
+    hmiss hret hrewire
+  exact ⟨c1, c2, c3, c4, c5, C05_enhance_keeps_graphOK env' fuel s r hG⟩
+
+/-- **In static mode `hot_reload()` is a no-op** (as documented): the reloader only takes the messages
+of the channel (registrations of loads) — no pass, no entry is rewritten, whatever the source, the set
+of changed entries and the fuel are. (A dead reloader does nothing at all.) -/
+theorem C05_hot_reload_static_idle (env : Env) (fuel : Nat) (s : St) (r : RSt) (hstatic : r.static_ = true) :
+    hotReload env fuel s r = (if r.dead then (s, r) else processMsgs s r) ∧
+    (hotReload env fuel s r).1.map = s.map ∧
+    (∀ k, (hotReload env fuel s r).1.lookup k = s.lookup k) ∧
+    (hotReload env fuel s r).2.static_ = true := by
+  cases hd : r.dead with
+  | true =>
+    have e : hotReload env fuel s r = (s, r) := by unfold hotReload; simp only [hd, if_true]
+    rw [e]
+    exact ⟨rfl, rfl, fun _ => rfl, hstatic⟩
+  | false =>
+    rw [hotReload_static env fuel s r hd hstatic]
+    exact ⟨rfl, rfl, fun k => processMsgs_lookup s r k, (processMsgs_static s r).trans hstatic⟩
 
 end AmVerif.Props.C05
